@@ -44,7 +44,7 @@ func newRangeEnv(proto, fam string, useStub bool) *rangeEnv {
 		addr = "::"
 		e.relayIP, e.bindIP = relay6, net.IPv6unspecified
 	}
-	e.g = &turn.RelayAddressGeneratorPortRange{RelayAddress: e.relayIP, Address: addr, Rand: e.sr, MaxRetries: 1}
+	e.g = &turn.RelayAddressGeneratorPortRange{RelayAddress: e.relayIP, Address: addr, Rand: e.sr, MaxRetries: 1, MinPort: 1, MaxPort: 1}
 	if useStub {
 		e.stub = &stubNet{}
 		e.g.Net = e.stub
